@@ -246,16 +246,18 @@ func judgeC15(w *World, subConns map[int][]*Peer, pubQoS map[int]int, res *core.
 		last := map[string]int{}
 		// (2) retransmissions after a resume leave in the order of the original transmission
 		firstSent := map[string]uint64{} // "id/tag" -> event of the first transmission
+		arrived := map[int]bool{}
 		for ci, c := range conns {
 			for _, e := range c.Recv {
 				q, ok := e.P.(*packet.Publish)
-				if !ok || q.Dup {
+				if !ok {
 					continue
 				}
 				tag := TagOf(q.Message.Payload)
-				if tag < 0 {
-					continue
+				if tag < 0 || arrived[tag] {
+					continue // only the first arrival of a message counts (a retransmission of something already seen does not)
 				}
+				arrived[tag] = true
 				key := fmt.Sprintf("p%d/pq%d/dq%d", tag/100000, pubQoS[tag], q.Message.QOS)
 				if prev, ok := last[key]; ok && tag%100000 <= prev%100000 {
 					res.Violate("C15", "C15.publisher-order", fmt.Sprintf("pq%d-dq%d", pubQoS[tag], q.Message.QOS), fmt.Sprintf("subscriber s%d received message %d of publisher %d (published at QoS %d, delivered at QoS %d) after message %d", s, tag%100000, tag/100000, pubQoS[tag], q.Message.QOS, prev%100000))
